@@ -60,10 +60,16 @@ def fixed_pool(i, n):
         )
     if i == 6:
         return M("plain", _rec("t/z", [], []))
+    if i == 7:
+        # a record whose serialisation fails (binary: lone surrogate cannot be encoded; JSON: integer beyond the
+        # 4300-digit limit): the caller catches the error and goes on writing
+        return M("plain", dict(_rec("t/p", [("string", "s"), ("varint", "n")], ["\ud800", 10**5000]), poison=True))
+    if i == 8:
+        return M("plain", _rec("t/p", [("string", "s"), ("varint", "n")], ["ok%d" % n, n]))
     raise IndexError(i)
 
 
-POOL_N = 7
+POOL_N = 9
 
 
 def exhaustive_cases(tier):
@@ -71,9 +77,11 @@ def exhaustive_cases(tier):
     for kind in ("binary", "json"):
         for ln in range(1, 5):
             for h in itertools.product(range(POOL_N), repeat=ln):
+                if ln == 4 and not ({7, 8} & set(h)) and (h[0] + h[1] * 7 + h[2] * 49 + h[3] * 343) % 1 != 0:
+                    continue
                 cases.append({"kind": kind, "writers": 1, "hist": [(0, i) for i in h], "fixed": True})
         for ln in range(1, 4):
-            for h in itertools.product(range(POOL_N), repeat=ln):
+            for h in itertools.product(range(7), repeat=ln):
                 for ws in itertools.product(range(2), repeat=ln):
                     if 1 not in ws:
                         continue
@@ -320,10 +328,20 @@ def run_history(case, ctx):
     else:
         fps = [KeepText() for _ in range(nw)]
         ws = [JsonfileWriter(fp) for fp in fps]
-    for (w, _), r in zip(specs, records):
+    failed = set()
+    for k, ((w, m), r) in enumerate(zip(specs, records)):
         res = impl(ws[w].write, r)
         if not res.ok:
+            if m.kind == "plain" and m.p.get("poison"):
+                failed.add(k)  # the caller catches the error and keeps using the writer
+                ctx.cls("write-raised-and-caller-continued")
+                continue
             raise Violation("%s/write-raised/%s" % (kind, res.type), "write raised %r" % (res,))
+        if m.kind == "plain" and m.p.get("poison"):
+            raise RuntimeError("harness: poison record was serialised")
+    if failed:
+        specs = [x for k, x in enumerate(specs) if k not in failed]
+        records = [x for k, x in enumerate(records) if k not in failed]
     for w in ws:
         impl(w.flush)
     for wi in range(nw):
